@@ -144,7 +144,7 @@ def gen_world(rng):
                         "ref_ind": [rng.sample(range(c), nref) for c in nch]}]
         names = MULTI
     else:
-        ns = rng.choice([2, 3]) if mode == "poser" else rng.choice([1, 1, 2, 2, 3])
+        ns = rng.choice([2, 3, 3, 4]) if mode == "poser" else rng.choice([1, 1, 2, 2, 3])
         w["setups"] = [{"kind": "single", "ndat": [rng.randint(600, 2000)], "nch": [rng.randint(2, 5)]} for _ in range(ns)]
         names = SINGLE
     nmin = min(min(s["ndat"]) for s in w["setups"])
@@ -739,7 +739,7 @@ def _poser_op(rng, wd):
     elif r < 0.2:
         idx = [rng.randrange(nset)]
     else:
-        k = rng.randint(2, min(4, max(2, nset)))
+        k = rng.randint(2, 4)
         idx = [rng.randrange(nset) for _ in range(k)] if rng.random() < 0.15 else rng.sample(range(nset), min(k, nset))
     n0 = len(wd.members(idx[0])) if idx else 1
     ln = n0 if rng.random() < 0.75 else max(0, n0 + rng.choice([-1, 1, 2]))
